@@ -302,7 +302,7 @@ def _disc_op(name, g, rest):
     if name == 'plot':
         k = int(rest[0][0])
         x, y = guarded(lambda: g.get_plottable_data(k), [g])
-        return [list(y)]
+        return [list(x), list(y)]
     raise KeyError(name)
 
 
@@ -434,7 +434,7 @@ EXACT = {
     'avg_pwc': (0,), 'avg_pwl': (0,), 'mul_pwc': (0,), 'mul_pwl': (0,), 'mul_disc': (0, 2),
     'isi_profile_bi': (0,), 'isi_profile_multi': (0,), 'spike_profile_bi': (0,), 'spike_profile_multi': (0,),
     'sync_profile_bi': (0, 1, 2), 'sync_profile_multi': (0, 1, 2), 'order_profile_bi': (0, 1, 2),
-    'order_profile_multi': (0, 1, 2), 'pwc_plot': (0,), 'pwl_plot': (0,),
+    'order_profile_multi': (0, 1, 2), 'pwc_plot': (0,), 'pwl_plot': (0,), 'disc_plot': (0,),
     'pyx_isi_profile': (0,), 'pyx_spike_profile': (0,), 'pyx_coinc_value': (0,), 'pyx_order_value': (0,), 'pyx_dir_value': (0,),
     'coinc_value_k': (0,), 'order_value_k': (0,), 'dir_value_k': (0,),
 }
